@@ -28,6 +28,22 @@
 //     `T[i]` → `T.getD i.toNat 0`, accepted only if interval analysis shows `i < len(T)`; plus the obligation
 //     `theorem <T>_length : <T>.length = <n> := by decide +kernel`.
 //
+// ROUND 2 additions (each still fails loudly outside its exact pattern):
+//   - `var x = e` (no type) is `x := e`; plain calls `f(a, …)` of a WHOLE function translated earlier in the same module and
+//     package (single non-Option result).
+//   - small byte buffers: `b := make([]byte, N)` (N a literal ≤ 16), `binary.{Little,Big}Endian.PutUint{16,32,64}(b, e)`,
+//     `b[k] = e` with a literal k, `return b`, `return []byte{e, …}`; a `[]byte` result is `List (BitVec 8)`.
+//   - a fresh boc cell used as a bit accumulator: `c := boc.NewCell()`, `if err := c.WriteUint(e, n); err != nil { panic(err) }`
+//     with a literal n (total ≤ 64 bits), `c.ResetCounters()`, one `v, err := c.ReadUint(<all bits written>)`; the error
+//     is then statically nil. The semantics of these three boc primitives is TRUSTED here (type cellAcc); they are modelled
+//     and proved in the bit-string property (C06).
+//   - block kinds: `for:<header>` (loop body), `if:<cond>` (the then-branch; an else branch is not part of the block),
+//     `cond:<cond>` (the condition of that `if` itself, a Bool), `prefix:<N>` (first N statements of the function),
+//     `range:<first stmt>|<last stmt>` (top-level statements, inclusive). Results: a variable name, `vars:a,b,c` (tuple; each
+//     must be assigned in the block), `expr:<text>` (an expression occurring in the function, evaluated after the block),
+//     `sink:<callee>|<arg0>`. Live-in variables that the block does not read are dropped from the parameters.
+//     `expect` entries are exact statement texts, or `text:<substring of the function text>`.
+//
 // Anything else (loops, switch, pointers, slices, maps, calls to unknown functions, division by a variable, a possibly
 // out-of-range index, `&&`/`||` around a possibly panicking shift …) makes the translator FAIL (non-zero exit): a
 // failed translation is a broken proof obligation, never a pass.
@@ -125,6 +141,58 @@ var intfunModules = map[string][]target{
 }
 
 func init() {
+	intfunModules["MinBits"] = append(intfunModules["MinBits"],
+		target{file: "boc/bitString.go", fn: "BitString.ReadLimUint", name: "readLimUintWidth", block: "prefix:1", result: "ln",
+			livein: []livein{{"n", "int"}}, expect: []string{"res, err := s.ReadUint(ln)", "return uint(res), err"},
+			doc: "the bit width read by `ReadLimUint(n)` (`#<= n`): `s.ReadUint(ln)` follows"},
+		target{file: "boc/bitString.go", fn: "BitString.WriteLimUint", name: "writeLimUintWidth", block: "prefix:1", result: "ln",
+			livein: []livein{{"n", "int"}}, expect: []string{"err := s.WriteUint(uint64(val), ln)", "return err"},
+			doc: "the bit width written by `WriteLimUint(val, n)`: `s.WriteUint(uint64(val), ln)` follows"})
+	intfunModules["CellDesc"] = []target{
+		{file: "boc/cell.go", fn: "d1", name: "d1",
+			opaque: []opaque{{text: "cell.RefsSize()", name: "refsSize", typ: "int"}, {text: "cell.IsExotic()", name: "isExotic", typ: "bool"}},
+			doc:    "refsSize = cell.RefsSize(), isExotic = cell.IsExotic()"},
+		{file: "boc/cell.go", fn: "d2", name: "d2",
+			opaque: []opaque{{text: "cell.BitSize()", name: "bitSize", typ: "int"}}, doc: "bitSize = cell.BitSize()"},
+	}
+	intfunModules["TlLength"] = []target{
+		{file: "tl/encoder.go", fn: "EncodeLength", name: "EncodeLength"},
+		{file: "liteclient/client.go", fn: "encodeLength", name: "encodeLengthLiteclient"},
+	}
+	intfunModules["WalletV5Id"] = []target{
+		{file: "wallet/wallet_v5.go", fn: "genContextID", name: "genContextID"},
+		{file: "wallet/wallet_v5.go", fn: "NewWalletV5R1", name: "walletID",
+			block:  "range:contextID := int64(genContextID(uint32(workchain)))|walletID := contextID ^ networkGlobalID",
+			result: "expr:uint32(walletID)",
+			expect: []string{"workchain := defaultOr(opts.Workchain, 0)", "networkGlobalID := int64(defaultOr[int32](opts.NetworkGlobalID, MainnetGlobalID))",
+				"text:walletID: uint32(walletID),"},
+			livein: []livein{{"workchain", "int"}, {"networkGlobalID", "int64"}},
+			doc:    "workchain = defaultOr(opts.Workchain, 0) (a Go int), networkGlobalID = int64 of the int32 network id; the result is stored in walletV5R1.walletID"},
+	}
+	intfunModules["BocHeader"] = []target{
+		{file: "boc/boc.go", fn: "readNBytesUIntFromArray", name: "readNBytesStep", block: "for:i := 0; i < n; i++",
+			livein: []livein{{"res", "uint"}}, result: "res", expect: []string{"var res uint = 0", "return res"},
+			opaque: []opaque{{text: "arr[i]", name: "b", typ: "uint8"}},
+			doc:    "one iteration of the loop of readNBytesUIntFromArray: accumulator `res` (starts at 0, returned after n bytes), byte `b = arr[i]`"},
+		{file: "boc/boc.go", fn: "parseBocHeader", name: "flagByte", block: "if:bytes.Equal(prefix, reachBocMagicPrefix)",
+			livein: []livein{{"hasIdx", "bool"}, {"hashCrc32", "bool"}, {"hasCacheBits", "bool"}, {"flags", "int"}, {"sizeBytes", "int"}},
+			result: "vars:hasIdx,hashCrc32,hasCacheBits,flags,sizeBytes",
+			opaque: []opaque{{text: "boc[0]", name: "fb", typ: "uint8"}},
+			expect: []string{"var prefix = boc[0:4]", "boc = boc[4:]"},
+			doc:    "decoding of the flag byte `fb = boc[0]` (the byte after the 4 magic bytes) of the generic BOC magic"},
+	}
+	intfunModules["PoolSeqno"] = []target{
+		{file: "liteapi/pool/conn_pool.go", fn: "ConnPool.findFirstWorkingConnection", name: "firstWorkingAccepts",
+			block: "cond:uint64(c.MasterHead().Seqno)+1 >= uint64(maxSeqno)", livein: []livein{{"maxSeqno", "uint32"}},
+			opaque: []opaque{{text: "c.MasterHead().Seqno", name: "seqno", typ: "uint32", check: "ton.BlockID.Seqno"}},
+			expect: []string{"return c"},
+			doc:    "the test under which findFirstWorkingConnection returns a healthy connection: its head is at most one block behind"},
+		{file: "liteapi/pool/conn_pool.go", fn: "ConnPool.findBestPingConnection", name: "bestPingSkips",
+			block: "cond:uint64(c.MasterHead().Seqno)+1 < uint64(maxSeqno)", livein: []livein{{"maxSeqno", "uint32"}},
+			opaque: []opaque{{text: "c.MasterHead().Seqno", name: "seqno", typ: "uint32", check: "ton.BlockID.Seqno"}},
+			expect: []string{"continue"},
+			doc:    "the test under which findBestPingConnection skips a healthy connection: more than one block behind"},
+	}
 	for name := range intfunModules {
 		n := name
 		translators[n] = func(repo string) (string, error) { return genIntfunModule(repo, n) }
@@ -134,12 +202,18 @@ func init() {
 // ------------------------------------------------------------------------------------------------------------ types
 
 type ity struct {
-	bits   int
-	signed bool
-	isBool bool
+	bits    int
+	signed  bool
+	isBool  bool
+	isBytes bool // a small byte slice built in the function ([]byte result): List (BitVec 8)
 }
 
+var bytesT = &ity{isBytes: true}
+
 func (t *ity) lean() string {
+	if t.isBytes {
+		return "List (BitVec 8)"
+	}
 	if t.isBool {
 		return "Bool"
 	}
@@ -170,9 +244,9 @@ func (t *ity) max() *big.Int {
 }
 
 var builtinTypes = map[string]*ity{
-	"uint64": {64, false, false}, "int64": {64, true, false}, "uint": {64, false, false}, "int": {64, true, false},
-	"uint32": {32, false, false}, "int32": {32, true, false}, "uint16": {16, false, false}, "int16": {16, true, false},
-	"uint8": {8, false, false}, "int8": {8, true, false}, "byte": {8, false, false}, "bool": {0, false, true},
+	"uint64": {bits: 64, signed: false, isBool: false}, "int64": {bits: 64, signed: true, isBool: false}, "uint": {bits: 64, signed: false, isBool: false}, "int": {bits: 64, signed: true, isBool: false},
+	"uint32": {bits: 32, signed: false, isBool: false}, "int32": {bits: 32, signed: true, isBool: false}, "uint16": {bits: 16, signed: false, isBool: false}, "int16": {bits: 16, signed: true, isBool: false},
+	"uint8": {bits: 8, signed: false, isBool: false}, "int8": {bits: 8, signed: true, isBool: false}, "byte": {bits: 8, signed: false, isBool: false}, "bool": {bits: 0, signed: false, isBool: true},
 }
 
 type field struct {
@@ -396,7 +470,21 @@ type binding struct {
 	fields map[string]string // field → Lean name (struct locals); nil for parameters (then <var>_<field>)
 	isParm bool
 	lo, hi *big.Int
-	errNil *bool // an `error` variable with statically known nil-ness
+	errNil *bool    // an `error` variable with statically known nil-ness
+	key    string   // used-key of a live-in parameter ("" = always kept)
+	buf    []string // a byte buffer `make([]byte, N)`: the Lean expression of each byte
+	cell   *cellAcc // a fresh boc cell used as a bit accumulator
+}
+
+// cellAcc: `c := boc.NewCell()` followed only by `c.WriteUint(v, n)` with constant n (total ≤ 64 bits), `c.ResetCounters()`
+// and one `c.ReadUint(total)`. TRUSTED semantics of these boc primitives (they are modelled and proved in C06): on a
+// fresh cell WriteUint appends the low n bits of v, most significant first, and cannot fail below 1023 bits; after
+// ResetCounters, ReadUint(total) returns all bits written as one big-endian number and cannot fail.
+type cellAcc struct {
+	acc   string
+	nbits int
+	reset bool
+	read  bool
 }
 
 type tableInfo struct {
@@ -519,8 +607,11 @@ func (c *ctx) expr(e ast.Expr, hint *ity) (val, error) {
 		return val{cv: constant.ToInt(constant.MakeFromLiteral(e.Value, e.Kind, 0))}, nil
 	case *ast.Ident:
 		if b, ok := c.vars[e.Name]; ok {
-			if b.st != nil || b.t == nil {
+			if b.st != nil || b.t == nil || b.buf != nil || b.cell != nil {
 				return val{}, fmt.Errorf("variable %s used as a value: outside the subset", e.Name)
+			}
+			if b.key != "" {
+				c.used[b.key] = true
 			}
 			v := val{lean: b.lean, t: b.t, lo: b.lo, hi: b.hi}
 			if !b.t.isBool && v.lo == nil {
@@ -997,6 +1088,29 @@ func (c *ctx) call(e *ast.CallExpr, hint *ity) (val, error) {
 		}
 		return r, nil
 	}
+	// plain call of a function translated earlier in the same module
+	if fid, ok := e.Fun.(*ast.Ident); ok {
+		if _, isVar := c.vars[fid.Name]; !isVar {
+			if fi, ok := c.mod.funcs[fid.Name]; ok && fi.wholeFn && fi.plain && fi.nrecv == 0 && fi.pkgDir == c.p.dir && len(fi.params) == len(e.Args) {
+				var args []string
+				for i, a := range e.Args {
+					v, err := c.expr(a, fi.params[i].t)
+					if err != nil {
+						return v, err
+					}
+					if v, err = c.mat(v, fi.params[i].t); err != nil {
+						return v, err
+					}
+					if !v.t.same(fi.params[i].t) {
+						return val{}, fmt.Errorf("call %s: argument %d has type %s, want %s", txt(e), i, v.t, fi.params[i].t)
+					}
+					args = append(args, paren(v.lean))
+				}
+				r := c.mk("("+fi.lean+" "+strings.Join(args, " ")+")", fi.result)
+				return r, nil
+			}
+		}
+	}
 	if sel, ok := e.Fun.(*ast.SelectorExpr); ok {
 		if x, ok := sel.X.(*ast.Ident); ok {
 			// math/bits
@@ -1070,6 +1184,8 @@ func (p lparam) expr(c *ctx) string {
 }
 
 type funcInfo struct {
+	pkgDir  string
+	wholeFn bool // a whole function (callable), not a block
 	lean    string
 	params  []lparam
 	nrecv   int
@@ -1112,7 +1228,7 @@ func genIntfunModule(repo, name string) (string, error) {
 	var b strings.Builder
 	b.WriteString("import TongoModel.GoInt\n")
 	fmt.Fprintf(&b, "/-! GENERATED by harness/cmd/extract (translator X4, module `%s`) from %s — do not edit.\nGo integers are `BitVec n` with Go semantics (see TongoModel/GoInt.lean and the header of harness/cmd/extract/intfuns.go). -/\n", name, strings.Join(srcs, ", "))
-	fmt.Fprintf(&b, "namespace Tongo.Gen.%s\nopen Tongo.GoInt\n\n", name)
+	fmt.Fprintf(&b, "set_option linter.unusedVariables false\nnamespace Tongo.Gen.%s\nopen Tongo.GoInt\n\n", name)
 	for _, t := range intfunModules[name] {
 		var s string
 		var err error
@@ -1247,7 +1363,7 @@ func (m *module) genFunc(t target) (string, error) {
 	fi := &funcInfo{lean: leanName(t.name)}
 	var body []ast.Stmt
 	var shape resultShape
-	var finish func(c *ctx) (string, error) // what happens when the statements run out
+	var finish func(c *ctx) ([]string, error) // what happens when the statements run out
 	srcQuote := ""
 
 	if t.block == "" {
@@ -1339,6 +1455,13 @@ func (m *module) genFunc(t target) (string, error) {
 					if nm != "" {
 						return "", fmt.Errorf("named struct result: outside the subset")
 					}
+				case *arrayT:
+					if r.n != -1 || r.elem.bits != 8 || r.elem.signed || nm != "" {
+						return "", fmt.Errorf("result type %s: outside the subset", txt(rf.Type))
+					}
+					shape.comps = append(shape.comps, field{nm, bytesT})
+					shape.groups = append(shape.groups, 1)
+					shape.stru = append(shape.stru, nil)
 				case errorT:
 					if shape.hasErr {
 						return "", fmt.Errorf("two error results")
@@ -1352,33 +1475,72 @@ func (m *module) genFunc(t target) (string, error) {
 			}
 		}
 		body = fd.Body.List
-		finish = func(c *ctx) (string, error) { return "", fmt.Errorf("control reaches the end of the function without return") }
+		finish = func(c *ctx) ([]string, error) {
+			return nil, fmt.Errorf("control reaches the end of the function without return")
+		}
 		srcQuote = txt(fd)
 	} else {
 		// a block inside the function
 		kind, want, _ := strings.Cut(t.block, ":")
-		var blk *ast.BlockStmt
+		var blkStmts []ast.Stmt
+		var condExpr ast.Expr
 		n := 0
-		ast.Inspect(fd.Body, func(nd ast.Node) bool {
-			switch s := nd.(type) {
-			case *ast.ForStmt:
-				if kind == "for" {
-					hdr := txt(s.Init) + "; " + txt(s.Cond) + "; " + txt(s.Post)
-					if hdr == want {
-						blk = s.Body
+		switch kind {
+		case "prefix": // the first N statements of the function body
+			k := 0
+			fmt.Sscan(want, &k)
+			if k < 1 || k > len(fd.Body.List) {
+				return "", fmt.Errorf("block %q: the function has %d statements", t.block, len(fd.Body.List))
+			}
+			blkStmts = fd.Body.List[:k]
+			n = 1
+		case "range": // top-level statements from <first text> to <last text>, inclusive
+			first, last, _ := strings.Cut(want, "|")
+			i0, i1 := -1, -1
+			for i, st := range fd.Body.List {
+				if txt(st) == first && i0 < 0 {
+					i0 = i
+				}
+				if txt(st) == last && i0 >= 0 && i1 < 0 {
+					i1 = i
+				}
+			}
+			if i0 >= 0 && i1 >= i0 {
+				blkStmts = fd.Body.List[i0 : i1+1]
+				n = 1
+			}
+		case "for", "if", "cond":
+			ast.Inspect(fd.Body, func(nd ast.Node) bool {
+				switch s := nd.(type) {
+				case *ast.ForStmt:
+					if kind == "for" {
+						hdr := txt(s.Init) + "; " + txt(s.Cond) + "; " + txt(s.Post)
+						if hdr == want {
+							blkStmts = s.Body.List
+							n++
+						}
+					}
+				case *ast.IfStmt:
+					if kind == "if" && s.Init == nil && txt(s.Cond) == want {
+						blkStmts = s.Body.List // the `then` branch; an else branch is not part of the block
+						n++
+					}
+					if kind == "cond" && s.Init == nil && txt(s.Cond) == want {
+						condExpr = s.Cond
 						n++
 					}
 				}
-			case *ast.IfStmt:
-				if kind == "if" && s.Init == nil && s.Else == nil && txt(s.Cond) == want {
-					blk = s.Body
-					n++
-				}
-			}
-			return true
-		})
+				return true
+			})
+		default:
+			return "", fmt.Errorf("unknown block kind %q", kind)
+		}
 		if n != 1 {
 			return "", fmt.Errorf("block %q found %d times in the function (expected exactly once)", t.block, n)
+		}
+		var blkNode ast.Node = &ast.BlockStmt{List: blkStmts}
+		if condExpr != nil {
+			blkNode = condExpr
 		}
 		all := map[string]int{}
 		ast.Inspect(fd.Body, func(nd ast.Node) bool {
@@ -1389,18 +1551,85 @@ func (m *module) genFunc(t target) (string, error) {
 			}
 			return true
 		})
+		whole := txt(fd)
 		for _, ex := range t.expect {
-			if all[ex] == 0 {
-				return "", fmt.Errorf("expected context statement %q not found any more", ex)
+			if all[ex] == 0 && !(strings.HasPrefix(ex, "text:") && strings.Contains(whole, strings.TrimPrefix(ex, "text:"))) {
+				return "", fmt.Errorf("expected context %q not found any more", ex)
 			}
 		}
 		for _, li := range t.livein {
 			lt := builtinTypes[li.typ]
-			c.vars[li.name] = &binding{lean: leanName(li.name), t: lt, isParm: true}
-			params = append(params, lparam{lean: leanName(li.name), t: lt})
+			if lt == nil {
+				return "", fmt.Errorf("live-in %s: bad type %s", li.name, li.typ)
+			}
+			c.vars[li.name] = &binding{lean: leanName(li.name), t: lt, isParm: true, key: "livein:" + li.name}
+			params = append(params, lparam{lean: leanName(li.name), t: lt, key: "livein:" + li.name})
 		}
-		body = blk.List
-		if strings.HasPrefix(t.result, "sink:") {
+		body = blkStmts
+		shape.groups = []int{1}
+		shape.stru = []*structT{nil}
+		shape.named = []string{""}
+		switch {
+		case condExpr != nil || strings.HasPrefix(t.result, "expr:"):
+			resExpr := condExpr
+			if condExpr == nil {
+				wantE := strings.TrimPrefix(t.result, "expr:")
+				cnt := 0
+				ast.Inspect(fd, func(nd ast.Node) bool {
+					if e, ok := nd.(ast.Expr); ok && txt(e) == wantE {
+						if cnt == 0 {
+							resExpr = e
+						}
+						cnt++
+						return false
+					}
+					return true
+				})
+				if cnt == 0 {
+					return "", fmt.Errorf("result expression %q does not occur in the function any more", wantE)
+				}
+			}
+			finish = func(c *ctx) ([]string, error) {
+				v, err := c.expr(resExpr, nil)
+				if err != nil {
+					return nil, err
+				}
+				if v.t == nil {
+					return nil, fmt.Errorf("untyped block result")
+				}
+				if len(shape.comps) == 0 {
+					shape.comps = []field{{"", v.t}}
+				}
+				return []string{v.lean}, nil
+			}
+		case strings.HasPrefix(t.result, "vars:"):
+			names := strings.Split(strings.TrimPrefix(t.result, "vars:"), ",")
+			shape.groups, shape.stru, shape.named = nil, nil, nil
+			for range names {
+				shape.groups = append(shape.groups, 1)
+				shape.stru = append(shape.stru, nil)
+				shape.named = append(shape.named, "")
+			}
+			finish = func(c *ctx) ([]string, error) {
+				var out []string
+				var comps []field
+				for _, rn := range names {
+					b, ok := c.vars[rn]
+					if !ok || b.t == nil {
+						return nil, fmt.Errorf("block result variable %s not found", rn)
+					}
+					if b.key != "" {
+						return nil, fmt.Errorf("block result variable %s is not assigned in the block", rn)
+					}
+					out = append(out, b.lean)
+					comps = append(comps, field{rn, b.t})
+				}
+				if len(shape.comps) == 0 {
+					shape.comps = comps
+				}
+				return out, nil
+			}
+		case strings.HasPrefix(t.result, "sink:"):
 			spec := strings.TrimPrefix(t.result, "sink:")
 			callee, arg0, _ := strings.Cut(spec, "|")
 			if len(body) == 0 {
@@ -1416,38 +1645,35 @@ func (m *module) genFunc(t target) (string, error) {
 			}
 			body = body[:len(body)-1]
 			resExpr := ce.Args[1]
-			finish = func(c *ctx) (string, error) {
+			finish = func(c *ctx) ([]string, error) {
 				v, err := c.expr(resExpr, nil)
 				if err != nil {
-					return "", err
+					return nil, err
 				}
 				if v.t == nil || v.t.isBool {
-					return "", fmt.Errorf("untyped block result")
+					return nil, fmt.Errorf("untyped block result")
 				}
 				if len(shape.comps) == 0 {
 					shape.comps = []field{{"", v.t}}
 				} else if !shape.comps[0].t.same(v.t) {
-					return "", fmt.Errorf("inconsistent block result type")
+					return nil, fmt.Errorf("inconsistent block result type")
 				}
-				return v.lean, nil
+				return []string{v.lean}, nil
 			}
-		} else {
+		default:
 			rn := t.result
-			finish = func(c *ctx) (string, error) {
+			finish = func(c *ctx) ([]string, error) {
 				b, ok := c.vars[rn]
 				if !ok || b.t == nil {
-					return "", fmt.Errorf("block result variable %s not found", rn)
+					return nil, fmt.Errorf("block result variable %s not found", rn)
 				}
 				if len(shape.comps) == 0 {
 					shape.comps = []field{{"", b.t}}
 				}
-				return b.lean, nil
+				return []string{b.lean}, nil
 			}
 		}
-		shape.groups = []int{1}
-		shape.stru = []*structT{nil}
-		shape.named = []string{""}
-		srcQuote = "block `" + t.block + "` of func " + t.fn + ": " + txt(blk)
+		srcQuote = "block `" + t.block + "` of func " + t.fn + ": " + txt(blkNode)
 	}
 	for _, o := range t.opaque {
 		params = append(params, lparam{lean: leanName(o.name), t: builtinTypes[o.typ], key: "opaque:" + o.name})
@@ -1510,7 +1736,11 @@ func (m *module) genFunc(t target) (string, error) {
 			fi.optName = shape.stru[0].name
 		}
 	}
-	m.funcs[t.fn] = fi
+	fi.pkgDir = p.dir
+	fi.wholeFn = t.block == ""
+	if fi.wholeFn {
+		m.funcs[t.fn] = fi
+	}
 	var b strings.Builder
 	doc := srcQuote
 	doc = strings.ReplaceAll(doc, "-/", "- /")
@@ -1539,7 +1769,7 @@ func (m *module) genFunc(t target) (string, error) {
 
 type gen struct {
 	shape     *resultShape
-	finish    func(c *ctx) (string, error)
+	finish    func(c *ctx) ([]string, error)
 	m         *module
 	guarded   bool
 	needGuard bool
@@ -1579,7 +1809,7 @@ func (g *gen) stmts(c *ctx, ss []ast.Stmt, d int) (string, error) {
 		if err != nil {
 			return "", err
 		}
-		return g.guardPrefix(gs, d) + ind(d) + g.leaf([]string{s}), nil
+		return g.guardPrefix(gs, d) + ind(d) + g.leaf(s), nil
 	}
 	s, rest := ss[0], ss[1:]
 	switch s := s.(type) {
@@ -1591,8 +1821,11 @@ func (g *gen) stmts(c *ctx, ss []ast.Stmt, d int) (string, error) {
 			return "", fmt.Errorf("declaration %s: outside the subset", txt(s))
 		}
 		vs := gd.Specs[0].(*ast.ValueSpec)
-		if len(vs.Names) != 1 || len(vs.Values) > 1 || vs.Type == nil {
+		if len(vs.Names) != 1 || len(vs.Values) > 1 || (vs.Type == nil && len(vs.Values) != 1) {
 			return "", fmt.Errorf("declaration %s: outside the subset", txt(s))
+		}
+		if vs.Type == nil { // var x = e: like x := e
+			return g.assign(c, &ast.AssignStmt{Lhs: []ast.Expr{vs.Names[0]}, Tok: token.DEFINE, Rhs: vs.Values}, rest, d)
 		}
 		r, err := c.w.resolve(vs.Type, c.p, c.f, 0)
 		if err != nil {
@@ -1627,8 +1860,82 @@ func (g *gen) stmts(c *ctx, ss []ast.Stmt, d int) (string, error) {
 		return g.assign(c, s, rest, d)
 	case *ast.IfStmt:
 		return g.ifStmt(c, s, rest, d)
+	case *ast.ExprStmt:
+		return g.exprStmt(c, s, rest, d)
 	}
 	return "", fmt.Errorf("statement %s (%T): outside the subset", txt(s), s)
+}
+
+var putFuncs = map[string]struct {
+	bits int
+	le   bool
+}{
+	"binary.LittleEndian.PutUint16": {16, true}, "binary.LittleEndian.PutUint32": {32, true}, "binary.LittleEndian.PutUint64": {64, true},
+	"binary.BigEndian.PutUint16": {16, false}, "binary.BigEndian.PutUint32": {32, false}, "binary.BigEndian.PutUint64": {64, false},
+}
+
+// exprStmt: `binary.<Order>.PutUintNN(buf, e)` on a local byte buffer of exactly NN/8 bytes... or longer (the first NN/8
+// bytes are overwritten); `cell.ResetCounters()` on a cell accumulator.
+func (g *gen) exprStmt(c *ctx, s *ast.ExprStmt, rest []ast.Stmt, d int) (string, error) {
+	ce, ok := s.X.(*ast.CallExpr)
+	if !ok {
+		return "", fmt.Errorf("statement %s: outside the subset", txt(s))
+	}
+	ft := txt(ce.Fun)
+	if pf, ok := putFuncs[ft]; ok && importsPath(c.f, "binary", "encoding/binary") && len(ce.Args) == 2 {
+		id, ok := ce.Args[0].(*ast.Ident)
+		if !ok {
+			return "", fmt.Errorf("statement %s: destination is not a local buffer: outside the subset", txt(s))
+		}
+		b, ok := c.vars[id.Name]
+		if !ok || b.buf == nil || len(b.buf) < pf.bits/8 {
+			return "", fmt.Errorf("statement %s: destination is not a local buffer of at least %d bytes: outside the subset", txt(s), pf.bits/8)
+		}
+		t := &ity{bits: pf.bits}
+		var gs []string
+		c.guards = &gs
+		v, err := c.expr(ce.Args[1], t)
+		c.guards = nil
+		if err != nil {
+			return "", err
+		}
+		if v, err = c.mat(v, t); err != nil {
+			return "", err
+		}
+		if !v.t.same(t) {
+			return "", fmt.Errorf("statement %s: value has type %s", txt(s), v.t)
+		}
+		tmp := leanName(id.Name) + "_put"
+		out := g.guardPrefix(gs, d) + ind(d) + "let " + tmp + " := " + v.lean + "\n"
+		nb := append([]string{}, b.buf...)
+		n := pf.bits / 8
+		for i := 0; i < n; i++ {
+			sh := 8 * i
+			if !pf.le {
+				sh = 8 * (n - 1 - i)
+			}
+			nm := fmt.Sprintf("%s_%d", leanName(id.Name), i)
+			out += ind(d) + fmt.Sprintf("let %s := (BitVec.setWidth 8 (%s >>> %d))\n", nm, tmp, sh)
+			nb[i] = nm
+		}
+		c.vars[id.Name] = &binding{buf: nb}
+		r, err := g.stmts(c, rest, d)
+		if err != nil {
+			return "", err
+		}
+		return out + r, nil
+	}
+	if sel, ok := ce.Fun.(*ast.SelectorExpr); ok && sel.Sel.Name == "ResetCounters" && len(ce.Args) == 0 {
+		if x, ok := sel.X.(*ast.Ident); ok {
+			if b, ok := c.vars[x.Name]; ok && b.cell != nil {
+				nc := *b.cell
+				nc.reset = true
+				c.vars[x.Name] = &binding{cell: &nc}
+				return g.stmts(c, rest, d)
+			}
+		}
+	}
+	return "", fmt.Errorf("statement %s: outside the subset", txt(s))
 }
 
 func (g *gen) bind(c *ctx, name string, v val, gs []string, rest []ast.Stmt, d int) (string, error) {
@@ -1703,6 +2010,107 @@ func (g *gen) assignValue(c *ctx, s *ast.AssignStmt) (string, val, error) {
 }
 
 func (g *gen) assign(c *ctx, s *ast.AssignStmt, rest []ast.Stmt, d int) (string, error) {
+	// b := make([]byte, N)   /   cell := boc.NewCell()
+	if len(s.Lhs) == 1 && len(s.Rhs) == 1 && s.Tok == token.DEFINE {
+		if id, ok := s.Lhs[0].(*ast.Ident); ok {
+			if ce, ok := s.Rhs[0].(*ast.CallExpr); ok {
+				if fid, ok := ce.Fun.(*ast.Ident); ok && fid.Name == "make" && len(ce.Args) == 2 && txt(ce.Args[0]) == "[]byte" {
+					if _, shadow := c.vars["make"]; !shadow {
+						if bl, ok := ce.Args[1].(*ast.BasicLit); ok && bl.Kind == token.INT {
+							n := 0
+							fmt.Sscan(bl.Value, &n)
+							if n < 1 || n > 16 {
+								return "", fmt.Errorf("%s: buffer length outside 1..16: outside the subset", txt(s))
+							}
+							buf := make([]string, n)
+							for i := range buf {
+								buf[i] = "0#8"
+							}
+							c.vars[id.Name] = &binding{buf: buf}
+							return g.stmts(c, rest, d)
+						}
+					}
+				}
+				if txt(ce.Fun) == "boc.NewCell" && len(ce.Args) == 0 && importsPath(c.f, "boc", modulePath+"/boc") {
+					acc := leanName(id.Name) + "_acc"
+					c.vars[id.Name] = &binding{cell: &cellAcc{acc: acc}}
+					r, err := g.stmts(c, rest, d)
+					if err != nil {
+						return "", err
+					}
+					return ind(d) + "let " + acc + " := 0#64\n" + r, nil
+				}
+			}
+		}
+	}
+	// b[k] = e on a local byte buffer, constant k
+	if len(s.Lhs) == 1 && len(s.Rhs) == 1 && s.Tok == token.ASSIGN {
+		if ix, ok := s.Lhs[0].(*ast.IndexExpr); ok {
+			id, ok1 := ix.X.(*ast.Ident)
+			bl, ok2 := ix.Index.(*ast.BasicLit)
+			if ok1 && ok2 && bl.Kind == token.INT {
+				if b, ok := c.vars[id.Name]; ok && b.buf != nil {
+					k := -1
+					fmt.Sscan(bl.Value, &k)
+					if k < 0 || k >= len(b.buf) {
+						return "", fmt.Errorf("%s: index out of range", txt(s))
+					}
+					bt := builtinTypes["byte"]
+					var gs []string
+					c.guards = &gs
+					v, err := c.expr(s.Rhs[0], bt)
+					c.guards = nil
+					if err != nil {
+						return "", err
+					}
+					if v, err = c.mat(v, bt); err != nil {
+						return "", err
+					}
+					if !v.t.same(bt) {
+						return "", fmt.Errorf("%s: value has type %s", txt(s), v.t)
+					}
+					nm := fmt.Sprintf("%s_%d", leanName(id.Name), k)
+					nb := append([]string{}, b.buf...)
+					nb[k] = nm
+					c.vars[id.Name] = &binding{buf: nb}
+					r, err := g.stmts(c, rest, d)
+					if err != nil {
+						return "", err
+					}
+					return g.guardPrefix(gs, d) + ind(d) + "let " + nm + " := " + v.lean + "\n" + r, nil
+				}
+			}
+		}
+	}
+	// v, err := cell.ReadUint(total) on a cell accumulator after ResetCounters
+	if len(s.Lhs) == 2 && len(s.Rhs) == 1 && s.Tok == token.DEFINE {
+		if ce, ok := s.Rhs[0].(*ast.CallExpr); ok {
+			if sel, ok := ce.Fun.(*ast.SelectorExpr); ok && sel.Sel.Name == "ReadUint" && len(ce.Args) == 1 {
+				if x, ok := sel.X.(*ast.Ident); ok {
+					if b, ok := c.vars[x.Name]; ok && b.cell != nil {
+						v0, okv := s.Lhs[0].(*ast.Ident)
+						e0, oke := s.Lhs[1].(*ast.Ident)
+						bl, okb := ce.Args[0].(*ast.BasicLit)
+						n := -1
+						if okb {
+							fmt.Sscan(bl.Value, &n)
+						}
+						if !okv || !oke || !b.cell.reset || b.cell.read || n != b.cell.nbits || n < 1 {
+							return "", fmt.Errorf("%s: only one ReadUint of all %d written bits after ResetCounters is in the subset", txt(s), b.cell.nbits)
+						}
+						nc := *b.cell
+						nc.read = true
+						c.vars[x.Name] = &binding{cell: &nc}
+						tr := true
+						c.vars[e0.Name] = &binding{errNil: &tr}
+						t := builtinTypes["uint64"]
+						hi := new(big.Int).Sub(new(big.Int).Lsh(big.NewInt(1), uint(n)), big.NewInt(1))
+						return g.bind(c, v0.Name, val{lean: b.cell.acc, t: t, lo: big.NewInt(0), hi: hi}, nil, rest, d)
+					}
+				}
+			}
+		}
+	}
 	// v, err := F(args) with F translated in this module and returning (T, error)
 	if len(s.Lhs) == 2 && len(s.Rhs) == 1 && s.Tok == token.DEFINE {
 		ce, ok := s.Rhs[0].(*ast.CallExpr)
@@ -1808,6 +2216,51 @@ func terminates(ss []ast.Stmt) bool {
 
 func (g *gen) ifStmt(c *ctx, s *ast.IfStmt, rest []ast.Stmt, d int) (string, error) {
 	if s.Init != nil {
+		// if err := cell.WriteUint(v, n); err != nil { panic(err) }   on a cell accumulator
+		as, ok := s.Init.(*ast.AssignStmt)
+		if ok && as.Tok == token.DEFINE && len(as.Lhs) == 1 && len(as.Rhs) == 1 && s.Else == nil && len(s.Body.List) == 1 {
+			en, ok1 := as.Lhs[0].(*ast.Ident)
+			ce, ok2 := as.Rhs[0].(*ast.CallExpr)
+			if ok1 && ok2 && txt(s.Cond) == en.Name+" != nil" && txt(s.Body.List[0]) == "panic("+en.Name+")" {
+				if sel, ok := ce.Fun.(*ast.SelectorExpr); ok && sel.Sel.Name == "WriteUint" && len(ce.Args) == 2 {
+					if x, ok := sel.X.(*ast.Ident); ok {
+						if b, ok := c.vars[x.Name]; ok && b.cell != nil && !b.cell.reset {
+							bl, okb := ce.Args[1].(*ast.BasicLit)
+							n := -1
+							if okb && bl.Kind == token.INT {
+								fmt.Sscan(bl.Value, &n)
+							}
+							if n < 1 || b.cell.nbits+n > 64 {
+								return "", fmt.Errorf("%s: bit length must be a constant and the total ≤ 64: outside the subset", txt(s.Init))
+							}
+							t := builtinTypes["uint64"]
+							var gs []string
+							c.guards = &gs
+							v, err := c.expr(ce.Args[0], t)
+							c.guards = nil
+							if err != nil {
+								return "", err
+							}
+							if v, err = c.mat(v, t); err != nil {
+								return "", err
+							}
+							if !v.t.same(t) {
+								return "", fmt.Errorf("%s: value has type %s", txt(s.Init), v.t)
+							}
+							mask := new(big.Int).Sub(new(big.Int).Lsh(big.NewInt(1), uint(n)), big.NewInt(1))
+							nc := *b.cell
+							nc.nbits += n
+							c.vars[x.Name] = &binding{cell: &nc}
+							r, err := g.stmts(c, rest, d)
+							if err != nil {
+								return "", err
+							}
+							return g.guardPrefix(gs, d) + ind(d) + fmt.Sprintf("let %s := ((%s <<< %d) ||| (%s &&& %s))\n", nc.acc, nc.acc, n, v.lean, lit(mask, t)) + r, nil
+						}
+					}
+				}
+			}
+		}
 		return "", fmt.Errorf("if with init statement: outside the subset")
 	}
 	var gs []string
@@ -1995,6 +2448,37 @@ func (g *gen) ret(c *ctx, s *ast.ReturnStmt, d int) (string, error) {
 				}
 			}
 			ci += sh.groups[i]
+		case sh.comps[ci].t.isBytes:
+			var bs []string
+			if id, ok := re.(*ast.Ident); ok {
+				b, ok := c.vars[id.Name]
+				if !ok || b.buf == nil {
+					return "", fmt.Errorf("return %s: not a local byte buffer: outside the subset", txt(s))
+				}
+				bs = b.buf
+			} else if cl, ok := re.(*ast.CompositeLit); ok && cl.Type != nil && txt(cl.Type) == "[]byte" {
+				bt := builtinTypes["byte"]
+				for _, el := range cl.Elts {
+					if _, kv := el.(*ast.KeyValueExpr); kv {
+						return "", fmt.Errorf("keyed byte literal: outside the subset")
+					}
+					v, err := c.expr(el, bt)
+					if err != nil {
+						return "", err
+					}
+					if v, err = c.mat(v, bt); err != nil {
+						return "", err
+					}
+					if !v.t.same(bt) {
+						return "", fmt.Errorf("return %s: element has type %s", txt(s), v.t)
+					}
+					bs = append(bs, v.lean)
+				}
+			} else {
+				return "", fmt.Errorf("return %s: outside the subset", txt(s))
+			}
+			vals = append(vals, "["+strings.Join(bs, ", ")+"]")
+			ci++
 		default:
 			ft := sh.comps[ci].t
 			v, err := c.expr(re, ft)
